@@ -1,4 +1,4 @@
-CONSTANTS JCs = {1} Horizon = 10 Ids = {0,1,2,3} Windows <- W1 MaxMissed = 2 MaxDown = 3 MaxOps = 3 MaxLag = 2 MaxFaults = 0 MaxRestarts = 1 MaxTick = 4
+CONSTANTS JCs = {1} Horizon = 7 Ids = {1,2} Windows <- W1 MaxMissed = 2 MaxDown = 3 MaxOps = 3 MaxLag = 1 MaxFaults = 0 MaxRestarts = 1 MaxTick = 3
   Pols = {"Allow"} PreBoot = TRUE WithRecon = FALSE Workers = {1}
 SPECIFICATION Spec
 INVARIANTS TypeOK
